@@ -283,6 +283,95 @@ theorem C15.nearest_outside_clamps (c : Nat → K) (n : Nat) (p : K) (h : Incr c
     rw [abs_of_nonneg (by linarith), abs_of_nonneg (by linarith)] at h0
     linarith
 
+/-- The corner loop of `_PerAxisInterpolator._evaluate` as executed (`perAxisEval`: a left fold
+over the `2^d` corners in `itertools.product` order, each weight built up from `1` by left
+multiplication, `out += values[edge] * weight`) is the tensor product of the per-axis two-point
+rules, for every dimension `d` and every edge list: the order of the `2^d` summands and of the
+weight factors does not matter. -/
+theorem C15.corner_loop_is_tensor_product (e : Edge K) (es : List (Edge K)) (v : List Nat → V) :
+    perAxisEval ([] : List (Edge K)) v = v [] ∧
+    perAxisEval (e :: es) v =
+      e.wlo • perAxisEval es (fun idx => v (e.elo :: idx)) +
+      e.whi • perAxisEval es (fun idx => v (e.ehi :: idx)) :=
+  ⟨perAxisEval_nil v, perAxisEval_cons e es v⟩
+
+/-- Non-vacuity: in two dimensions the loop visits the four corners in the order
+(l,l), (l,h), (h,l), (h,h) with the weights `(1·w₀)·w₁`. -/
+example (v : List Nat → ℚ) :
+    cornerTerms [(⟨1 / 4, 3 / 4, 0, 1⟩ : Edge ℚ), ⟨1 / 2, 1 / 2, 2, 3⟩] 1 v =
+      [(1 * (1 / 4) * (1 / 2), v [0, 2]), (1 * (1 / 4) * (1 / 2), v [0, 3]),
+       (1 * (3 / 4) * (1 / 2), v [1, 2]), (1 * (3 / 4) * (1 / 2), v [1, 3])] := rfl
+
+/-- Interpolation is linear in the value array — for every per-axis scheme mix, every
+dimension, every evaluation point (inside or outside the grid) and without any hypothesis on
+the coordinate vectors: `I(c•v + w)(p) = c•I(v)(p) + I(w)(p)`.  This is the linearity
+`Resampling` declares (`linear=True`) and `linear_deform` has in its template argument. -/
+theorem C15.interp_linear_in_values (axes : List (Axis K)) (c : K) (v w : List Nat → V)
+    (p : List K) :
+    perAxisInterp axes (fun idx => c • v idx + w idx) p =
+      c • perAxisInterp axes v p + perAxisInterp axes w p := by
+  unfold perAxisInterp
+  exact perAxisEval_linear _ c v w
+
+/-- Non-vacuity: an instance on a 2-d mixed-scheme grid over ℚ. -/
+example (v w : List Nat → ℚ) :=
+  C15.interp_linear_in_values
+    [(⟨3, fun i => ((i * i : Nat) : ℚ), .linear⟩ : Axis ℚ), ⟨2, fun i => (i : ℚ), .nearest⟩]
+    (-3) v w [5 / 2, 1 / 3]
+
+/-- No overshoot (discrete maximum principle): inside the hull the interpolant of real data
+stays between the smallest and the largest stored value — for every mix of linear and nearest
+axes, every dimension, non-uniform coordinates.  (Linear weights are barycentric, nearest
+weights select one node.)  Outside the hull it is false for the code as it is: the coded
+zero extension of a linear axis leaves the range of the values. -/
+theorem C15.interp_within_value_bounds {K : Type} [Field K] [LinearOrder K]
+    [IsStrictOrderedRing K] (axes : List (Axis K)) (hg : ∀ a ∈ axes, a.Good)
+    (v : List Nat → K) (m M : K)
+    (hv : ∀ idx, ValidIdx axes idx → m ≤ v idx ∧ v idx ≤ M)
+    (p : List K) (hp : InHull axes p) :
+    m ≤ perAxisInterp axes v p ∧ perAxisInterp axes v p ≤ M := by
+  induction hp generalizing v with
+  | nil =>
+    rw [perAxisInterp_nil]
+    exact hv [] .nil
+  | @cons a x as xs hx _ ih =>
+    have ha := hg a (by simp)
+    have hrest : ∀ b ∈ as, b.Good := fun b hb => hg b (by simp [hb])
+    have slice : ∀ k, k < a.n →
+        m ≤ perAxisInterp as (fun idx => v (k :: idx)) xs ∧
+          perAxisInterp as (fun idx => v (k :: idx)) xs ≤ M :=
+      fun k hk => ih hrest _ (fun idx hidx => hv (k :: idx) (.cons hk hidx))
+    cases hs : a.scheme with
+    | linear =>
+      obtain ⟨i, t, hi, _, _, ht0, ht1, _, hstep⟩ := C15.linear_blend a ha hs as v x xs hx.1 hx.2
+      obtain ⟨hA1, hA2⟩ := slice i (by omega)
+      obtain ⟨hB1, hB2⟩ := slice (i + 1) hi
+      rw [hstep]
+      simp only [smul_eq_mul]
+      have h1t : 0 ≤ 1 - t := by linarith
+      constructor
+      · nlinarith [mul_le_mul_of_nonneg_left hA1 h1t, mul_le_mul_of_nonneg_left hB1 ht0]
+      · nlinarith [mul_le_mul_of_nonneg_left hA2 h1t, mul_le_mul_of_nonneg_left hB2 ht0]
+    | nearest =>
+      rw [C15.peraxis_nearest_axis a ha hs]
+      exact slice _ (C15.nearest_is_closest a.c a.n x ha.incr ha.two).1
+
+/-- Non-vacuity: the hypotheses hold on a 2-d non-uniform grid with mixed schemes, bounded data
+and an interior non-node point. -/
+example : let ax : List (Axis ℚ) := [⟨3, fun i => ((i * i : Nat) : ℚ), .linear⟩, ⟨2, fun i => (i : ℚ), .nearest⟩]
+    (∀ a ∈ ax, a.Good) ∧ InHull ax [5 / 2, 1 / 3] ∧
+    (∀ idx, ValidIdx ax idx →
+      (0 : ℚ) ≤ (if idx.headD 0 % 2 = 0 then 0 else 1) ∧ (if idx.headD 0 % 2 = 0 then (0 : ℚ) else 1) ≤ 1) := by
+  intro ax
+  refine ⟨?_, .cons (by norm_num) (.cons (by norm_num) .nil), ?_⟩
+  · intro a ha
+    simp only [ax, List.mem_cons, List.mem_nil_iff, or_false] at ha
+    rcases ha with rfl | rfl
+    · exact ⟨by simp, incr_sq 3⟩
+    · exact ⟨by simp, incr_id 2⟩
+  · intro idx _
+    split_ifs <;> norm_num
+
 /-- Calling conventions — a statement about the MODEL's combination logic only: the model
 evaluates the per-axis stage on each coordinate row and then combines the per-axis results
 position-wise (`columns`, point array) resp. over the cartesian product (`cartesian`, mesh
@@ -462,4 +551,30 @@ example : Sampling.RetForm 2 [2, 3] [2, 1] ∧
   refine ⟨.bcast (.cons (Or.inr rfl) (.cons (Or.inl rfl) .nil)), ?_⟩
   simp [Sampling.sample, Sampling.defaultIp, Sampling.reshapeC, Sampling.size, Sampling.assignTo,
     Sampling.leadDrop, Sampling.broadcastTo, Sampling.broadcastable, Sampling.bcastIndex]
+
+/-- Sampling at a SINGLE point (`scalar_in`: `np.squeeze`, then `out.ravel()[0].item()`), for
+every kind of callable (out-of-place only / dual use / in-place only — the last one through
+`_default_oop` with an allocated `(1,)` array) and every dimension: whichever of the shapes the
+callable's code returns for one point — `()` (constant), `(1,)` (function of `x[0]`, …) or
+`(1, 1)` (1d function of `x` itself) — the wrapper delivers a scalar holding that single entry.
+About the executed `Sampling.sample` (compared with the real wrapper on every run). -/
+theorem C15.sampling_single_point {W : Type} (k : Sampling.CallKind) (d : Nat)
+    (r : Sampling.Arr W) (h : r.shape = [] ∨ r.shape = [1] ∨ r.shape = [1, 1]) :
+    ∃ a, Sampling.sample k false d .point [1] r = some a ∧ a.shape = [] ∧
+      a.get [] = r.get (List.replicate r.shape.length 0) := by
+  obtain ⟨sh, g⟩ := r
+  simp only at h
+  rcases h with rfl | rfl | rfl <;> cases k <;>
+    simp [Sampling.sample, Sampling.oopPost, Sampling.squeeze, Sampling.scalarOut,
+      Sampling.unsqueezeIdx, Sampling.defaultOop, Sampling.assignTo, Sampling.leadDrop,
+      Sampling.broadcastTo, Sampling.broadcastable, Sampling.bcastIndex]
+
+/-- Non-vacuity: an in-place-only callable whose code produces shape `(1, 1)`; the scalar
+delivered is the entry `(0, 0)`. -/
+example : ∃ a, Sampling.sample .ipOnly false 1 .point [1]
+      (⟨[1, 1], fun idx => idx.length + 40⟩ : Sampling.Arr Nat) = some a ∧ a.shape = [] ∧
+      a.get [] = 42 := by
+  obtain ⟨a, h1, h2, h3⟩ := C15.sampling_single_point .ipOnly 1
+    (⟨[1, 1], fun idx => idx.length + 40⟩ : Sampling.Arr Nat) (Or.inr (Or.inr rfl))
+  exact ⟨a, h1, h2, by rw [h3]; rfl⟩
 end
